@@ -115,9 +115,93 @@ def soundness(model, qmodel, xs):
   return True, worst < 0.12, worst, ""
 
 
+def registry_phase(chk, args):
+  """Registry.tla: every reachable registry state (register_quantized_op / check function / policy, per algorithm key) is
+  replayed on a fresh AlgorithmManagerApi and the whole query table compared; AcceptIffLastRegistered is checked by TLC."""
+  from ai_edge_quantizer import algorithm_manager_api as api, qtyping as Q
+  algs, ops, funcs, checks, pols, cfgs = ["A1", "A2"], ["FULLY_CONNECTED", "ADD"], ["f1", "f2"], ["c_all", "c_fc"], ["P_yes", "None"], ["plain", "skip"]
+  accepts = lambda c, p, o, cfg: c == "c_all" or (o == "FULLY_CONNECTED" and p == "P_yes")
+  q = lambda x: '"%s"' % x
+  tab = "[t \\in %s \\X %s \\X %s \\X %s |-> t \\in %s]" % (
+      tlc.tla_str_set(checks), tlc.tla_str_set(pols), tlc.tla_str_set(ops), tlc.tla_str_set(cfgs),
+      tlc.tla_set(["<<%s, %s, %s, %s>>" % (q(c), q(p), q(o), q(g)) for c in checks for p in pols for o in ops for g in cfgs if accepts(c, p, o, g)]))
+  consts = dict(Algs=tlc.tla_str_set(algs), Ops=tlc.tla_str_set(ops), Funcs=tlc.tla_str_set(funcs), Checks=tlc.tla_str_set(checks),
+                Policies=tlc.tla_str_set(pols), Cfgs=tlc.tla_str_set(cfgs), CheckAccepts=tab, MaxLen="3" if args.tier == "quick" else "4")
+  r = tlc.run("C13_registry", "Registry", consts, invariants=["NoDuplicateOps", "AcceptIffLastRegistered"], properties=["OrderStable"],
+              constraints=["EmitR"], view="View", workers=16, timeout=3600)
+  if r.error or r.rc not in (0, 12):
+    chk.machinery("TLC failed on Registry.tla: %s" % r.out[-600:])
+    return {}
+  if r.violated or r.prop_violated:
+    chk.violation("design-level: %s violated in Registry.tla" % (r.violated + r.prop_violated), {"tlc": r.out[-2000:]})
+  tables = []
+  for line in r.printed("REG"):
+    try:
+      tables.append(json.loads(json.loads(line[line.index(",") + 1:line.rindex(">>")].strip())))
+    except Exception:  # pylint: disable=broad-except
+      pass
+  policy_obj = {"P_yes": {"marker": "P_yes"}, "None": None}
+  stubs = {f: {k: (lambda *a, _t=(f, k), **kw: _t) for k in ("init", "cal", "mat")} for f in funcs}
+  def make_check(c):
+    def fn(op_name, cfg, pol):
+      pname = "None" if pol is None else pol["marker"]
+      if not accepts(c, pname, str(getattr(op_name, "value", op_name)), "plain"):
+        raise ValueError("refused by %s" % c)
+    return fn
+  check_fn = {c: make_check(c) for c in checks}
+  cfg_obj = {"plain": Q.OpQuantizationConfig(), "skip": Q.OpQuantizationConfig(skip_checks=True)}
+  ndiff = 0
+  def outcome(f):
+    try:
+      return f()
+    except ValueError:
+      return "ValueError"
+    except KeyError:
+      return "KeyError"
+  for t in tables:
+    m = api.AlgorithmManagerApi()
+    for h in t["hist"]:
+      if h[0] == "op":
+        m.register_quantized_op(h[1], Q.TFLOperationName(h[2]), stubs[h[3]]["init"], stubs[h[3]]["cal"], stubs[h[3]]["mat"])
+      elif h[0] == "check":
+        m.register_op_quant_config_validation_func(h[1], check_fn[h[2]])
+      else:
+        m.register_config_check_policy(h[1], policy_obj[h[2]])
+    got = {
+        "isop": sorted([a, o] for a in algs for o in ops if m.is_op_registered(a, Q.TFLOperationName(o))),
+        "isalg": sorted(a for a in algs if m.is_algorithm_registered(a)),
+        "supported": {a: outcome(lambda a=a: [x.value for x in m.get_supported_ops(a)]) for a in algs},
+        "func": sorted([a, o, outcome(lambda a=a, o=o: _tag3(m, a, Q.TFLOperationName(o), Q, stubs))] for a in algs for o in ops),
+        "chk": sorted([a, o, g, outcome(lambda a=a, o=o, g=g: m.check_op_quantization_config(a, Q.TFLOperationName(o), cfg_obj[g]) or "ok")] for a in algs for o in ops for g in cfgs),
+    }
+    sup = t["supported"]
+    want = {"isop": sorted(list(x) for x in t["isop"]), "isalg": sorted(t["isalg"]),
+            "supported": {a: ("ValueError" if list(sup[a]) == ["ValueError"] else list(sup[a])) for a in algs},
+            "func": sorted(list(x) for x in t["func"]), "chk": sorted(list(x) for x in t["chk"])}
+    if got != want:
+      ndiff += 1
+      bad = [k for k in got if got[k] != want[k]]
+      # acceptance differing from the specification's rule is C13's subject; the rest is drift of the registry model
+      if "chk" in bad:
+        chk.violation("check_op_quantization_config does not decide by the last registered check function and policy after %s: spec %s impl %s" %
+                      (t["hist"], [x for x in want["chk"] if x not in got["chk"]][:3], [x for x in got["chk"] if x not in want["chk"]][:3]),
+                      {"property": "C13", "clause": "registry", "history": t["hist"]})
+      else:
+        chk.note("spec-drift registry after %s: %s differ" % (t["hist"], bad))
+  return {"registry_states": r.distinct, "registry_tables_replayed": len(tables), "registry_disagreements": ndiff}
+
+
+def _tag3(m, a, op, Q, stubs):
+  """Tag of the registered functions, read through all three getters (they must be the three functions of ONE registration)."""
+  fi, fc, fm = m.get_init_qsv_func(a, op), m.get_quantization_func(a, op, Q.QuantizeMode.CALIBRATE), m.get_quantization_func(a, op, Q.QuantizeMode.MATERIALIZE)
+  tags = {f for f, d in stubs.items() if d["init"] is fi and d["cal"] is fc and d["mat"] is fm}
+  return tags.pop() if len(tags) == 1 else "mixed"
+
+
 def main():
   args = common.parse_args(sys.argv[2:])
   chk = common.Check("C13", "model_checking", args)
+  reg_cov = registry_phase(chk, args)
   from absl import logging as alog
   alog.set_verbosity(alog.ERROR)
   from ai_edge_quantizer import quantizer, qtyping as Q
@@ -257,7 +341,7 @@ def main():
       bad_accept["%s %s %s" % (m.get("op"), m["config"], v["st"])] = t["events"][-1]["exc"]
   chk.cov.update({
       "states": r.distinct, "transitions": r.generated, "traces_validated_against_impl": len(traces), "counts": counts,
-      "accepted_but_failing": bad_accept, "evaluations": len(traces), "distinct_nontrivial": counts["accepted"],
+      "accepted_but_failing": bad_accept, **reg_cov, "evaluations": len(traces), "distinct_nontrivial": counts["accepted"],
       "rule": "every point of the lattice (480 configs x 2 algorithms x 24 selectors); non-trivial = accepted by the API; accepted points are quantized on a "
               "single-operator model, run in the interpreter on 6 inputs and compared with the float model (relative RMS error < 0.12 of the output range)",
       "samples": [dict(meta[i], events=traces[i]["events"]) for i in (0, len(traces) // 2, len(traces) - 1)], "wall_impl_s": round(time.time() - t0, 1),
